@@ -32,11 +32,12 @@ def conditions(level):
 def to_self(text):
     """Rewrite the condition over the parameters into one over the attributes of ``self`` (for invariants)."""
     tree = ast.parse(text, mode="eval")
-    stored = {n.id for n in ast.walk(tree) if isinstance(n, ast.Name) and isinstance(n.ctx, ast.Store)}
+    stored = expr.walrus_targets(tree)
+    outer = {id(n) for n in expr.outer_name_loads(tree)}   # (a loop variable may bear the name of a parameter read elsewhere)
 
     class T(ast.NodeTransformer):
         def visit_Name(self, node):
-            if isinstance(node.ctx, ast.Load) and node.id in expr.PARAMS and node.id not in stored:
+            if id(node) in outer and node.id in expr.PARAMS and node.id not in stored:
                 return ast.copy_location(ast.Attribute(value=ast.Name(id="self", ctx=ast.Load()), attr=node.id, ctx=ast.Load()), node)
             return node
     return ast.unparse(T().visit(tree))
